@@ -84,7 +84,23 @@ def _catch(ctx, f):
             # the extracted code referred to a global the sidecar's environment does not supply (e.g. a module imported by a refactoring):
             # no contract applies - undecided, never a verdict about the code
             ctx.unsupported(f"code no longer matches the sidecar's contracts: {e}")
+        if type(e) is AttributeError and _is_sidecar_object(getattr(e, "obj", None)) and _in_code_under_test(e):
+            # the code used a stub / proxy of the sidecar in a way its contract does not describe (a method the stub does not model)
+            ctx.unsupported(f"code no longer matches the sidecar's contracts: {e}")
+        if type(e) is TypeError and _in_code_under_test(e) and any(w in str(e) for w in ("unexpected keyword argument", "required positional argument", "required keyword-only argument",
+                                                                                            "positional arguments but", "positional argument but", "multiple values for argument")):
+            # a callee was invoked with another signature than the one its contract describes (new / renamed / reordered parameter)
+            ctx.unsupported(f"code no longer matches the sidecar's contracts: {e}")
         return "raise", e
+
+
+def _is_sidecar_object(o):
+    if o is None:
+        return False
+    mod = getattr(type(o), "__module__", "") or ""
+    if isinstance(o, type):
+        mod = getattr(o, "__module__", "") or ""
+    return mod.startswith(("contracts.", "ujvc.")) or mod in ("contracts", "ujvc")
 
 
 def _in_code_under_test(e):
